@@ -156,8 +156,20 @@ theorem core_unbindAny (s : State) (k : Key) (policy : Nat) (h : Core s) (hs : S
   · exact ⟨core_unbindDp s k policy h hun, single_of_cleared hs (unbindDp_chgC s k policy)⟩
   · exact ⟨core_unbindOther s k policy h hun, single_of_cleared hs (unbindOther_chgC s k policy)⟩
 
+/-- every record of a key is unassigned: the key belongs to no pod (its records name no node), or it owns one address
+    and that one is unassigned -/
+theorem keyUnassigned_of (s : State) (k : Key) (h : Core s) (hs : Single s) (ip : IP)
+    (hip : ∀ r, Tbl.get s.alloc ip = some r → r.key = k → Tbl.get (prov s) ip = none)
+    (hhas : k.pod ≠ "" → ∃ r, Tbl.get s.alloc ip = some r ∧ r.key = k) : KeyUnassigned s k := by
+  intro j rj hj hk
+  by_cases hp : k.pod = ""
+  · exact (h.j j).unassigned_of_node rj hj ((h.j j).2 rj hj (Or.inl (by rw [hk]; exact hp)))
+  · obtain ⟨r, hr, hkr⟩ := hhas hp
+    have := hs j ip rj r hj hr (by rw [hk, hkr]) (by rw [hk]; exact hp)
+    rw [this]; exact hip r hr hkr
+
 theorem resyncAct_core (s : State) (ip : IP) (k : Key) (r : Rec) (hget : Tbl.get s.alloc ip = some r) (hkey : r.key = k)
-    (hpod : k.pod ≠ "") (c1 : Core s) (s1 : Single s) : Core (resyncAct s ip k r) ∧ Single (resyncAct s ip k r) := by
+    (c1 : Core s) (s1 : Single s) : Core (resyncAct s ip k r) ∧ Single (resyncAct s ip k r) := by
   have unb : ∀ (t : State), Core t → Single t → KeyUnassigned t k →
       Core (if k.isDp then (unbindDp t k r.policy).1 else (unbindOther t k r.policy).1) ∧
       Single (if k.isDp then (unbindDp t k r.policy).1 else (unbindOther t k r.policy).1) :=
@@ -165,6 +177,10 @@ theorem resyncAct_core (s : State) (ip : IP) (k : Key) (r : Rec) (hget : Tbl.get
   unfold resyncAct
   split
   · rename_i hprov
+    have hpod : k.pod ≠ "" := by
+      intro hp
+      have hn := (c1.j ip).2 r hget (Or.inl (by rw [hkey]; exact hp))
+      simp [hn] at hprov
     have c2 := core_provUnassign s r.node ip c1
     have s2 := single_of_alloc_eq s1 (provUnassign_alloc s r.node ip)
     split
@@ -193,14 +209,13 @@ theorem resyncAct_core (s : State) (ip : IP) (k : Key) (r : Rec) (hget : Tbl.get
       simp only [Bool.and_eq_true, decide_eq_true_eq, not_and, c1.on, true_implies] at hprov
       simpa using hprov
     have hu1 : Tbl.get (prov s) ip = none := (c1.j ip).unassigned_of_node r hget hnode
-    have hun1 := keyUnassigned_of_single _ s1 ip r hget (by rw [hkey]; exact hpod) hu1
-    rw [hkey] at hun1
+    have hun1 : KeyUnassigned s k := keyUnassigned_of s k c1 s1 ip (fun _ _ _ => hu1) (fun _ => ⟨r, hget, hkey⟩)
     have := unb _ c1 s1 hun1
     split
     · rename_i hdp; simp only [hdp, ↓reduceIte] at this; exact this
     · rename_i hdp; simp only [hdp] at this; exact this
 
-theorem resyncOne_core (s : State) (ip : IP) (r0 : Rec) (hpod : r0.key.pod ≠ "") (h : Core s)
+theorem resyncOne_core (s : State) (ip : IP) (r0 : Rec) (h : Core s)
     (hs : Single s) : Core (resyncOne Facts.good s ip r0) ∧ Single (resyncOne Facts.good s ip r0) := by
   generalize hF : Facts.good = F
   have hre : F.resyncRechecks = true := by rw [← hF]; rfl
@@ -226,9 +241,9 @@ theorem resyncOne_core (s : State) (ip : IP) (r0 : Rec) (hpod : r0.key.pod ≠ "
             rw [hre] at hcur; simpa using hcur
           have hget2 : Tbl.get (keyOwnedByRunningPod F (podRunning F s r0.key.pod r0.key.ns r.uid).1 r0.key r.uid).1.alloc ip
               = some r := by rw [kq.1.alloc, pq.1.alloc]; exact hget
-          exact resyncAct_core _ ip r0.key r hget2 hkey' hpod c2 s2
+          exact resyncAct_core _ ip r0.key r hget2 hkey' c2 s2
 
-theorem resyncLoop_core (snap : Tbl IP Rec) (hsnap : ∀ ip r0, Tbl.get snap ip = some r0 → r0.key.pod ≠ "") :
+theorem resyncLoop_core (snap : Tbl IP Rec) :
     ∀ (l : List IP) (s : State), Core s → Single s →
       Core (resyncLoop Facts.good snap s l) ∧ Single (resyncLoop Facts.good snap s l) := by
   intro l
@@ -240,7 +255,7 @@ theorem resyncLoop_core (snap : Tbl IP Rec) (hsnap : ∀ ip r0, Tbl.get snap ip 
     split
     · exact ih s h hs
     · rename_i r0 hr0
-      have r := resyncOne_core s ip r0 (hsnap ip r0 hr0) h hs
+      have r := resyncOne_core s ip r0 h hs
       exact ih _ r.1 r.2
 
 theorem get_filter_val {κ α : Type} [DecidableEq κ] (t : Tbl κ α) (p : κ × α → Bool) (k : κ) (v : α)
@@ -252,23 +267,7 @@ theorem resync_core (s : State) (order : List IP) (h : Core s) (hs : Single s) :
   dsimp only
   split
   · exact h
-  · refine (resyncLoop_core _ (fun ip r0 hr0 => ?_) order s h hs).1
-    have := get_filter_val s.alloc (fun e => inChecklist e.2) ip r0 hr0
-    unfold inChecklist at this
-    simp only [Bool.and_eq_true, bne_iff_ne, ne_eq, decide_eq_true_eq, Bool.not_eq_true'] at this
-    simpa using this.1.1.2
-
-/-- every record of a key is unassigned: the key belongs to no pod (its records name no node), or it owns one address
-    and that one is unassigned -/
-theorem keyUnassigned_of (s : State) (k : Key) (h : Core s) (hs : Single s) (ip : IP)
-    (hip : ∀ r, Tbl.get s.alloc ip = some r → r.key = k → Tbl.get (prov s) ip = none)
-    (hhas : k.pod ≠ "" → ∃ r, Tbl.get s.alloc ip = some r ∧ r.key = k) : KeyUnassigned s k := by
-  intro j rj hj hk
-  by_cases hp : k.pod = ""
-  · exact (h.j j).unassigned_of_node rj hj ((h.j j).2 rj hj (Or.inl (by rw [hk]; exact hp)))
-  · obtain ⟨r, hr, hkr⟩ := hhas hp
-    have := hs j ip rj r hj hr (by rw [hk, hkr]) (by rw [hk]; exact hp)
-    rw [this]; exact hip r hr hkr
+  · exact (resyncLoop_core _ order s h hs).1
 
 theorem releaseAct_core (s : State) (ip : IP) (k : Key) (uid : Nat) (node : String) (c0 : Core s) (s0 : Single s)
     (hrec0 : ∀ r, Tbl.get s.alloc ip = some r → r.key = k ∧ r.node = node)
